@@ -168,6 +168,9 @@ pub struct Expanded {
     #[storable(dims("dim"))]
     pub value: Vec<f64>,
     pub first: f64,
+    /// integer-valued floats (a multiple of ten, exact zero): formatting corner cases of the text backend
+    pub decade: f64,
+    pub zero: f64,
     #[storable(dims("row", "col"))]
     pub wide: Vec<f64>,
     #[storable(dims("col", "row"))]
@@ -178,7 +181,7 @@ pub struct Expanded {
 
 /// (variable name, shape) of the expanded draw for dimension `dim`, in declaration order
 pub fn expanded_shapes(dim: usize) -> Vec<(&'static str, Vec<usize>)> {
-    vec![("value", vec![dim]), ("first", vec![]), ("wide", vec![EXP_ROWS, EXP_COLS]), ("tall", vec![EXP_COLS, EXP_ROWS]), ("cube", vec![EXP_ROWS, EXP_COLS, EXP_ROWS])]
+    vec![("value", vec![dim]), ("first", vec![]), ("decade", vec![]), ("zero", vec![]), ("wide", vec![EXP_ROWS, EXP_COLS]), ("tall", vec![EXP_COLS, EXP_ROWS]), ("cube", vec![EXP_ROWS, EXP_COLS, EXP_ROWS])]
 }
 
 impl CpuLogpFunc for Target {
@@ -228,7 +231,7 @@ impl CpuLogpFunc for Target {
     fn expand_vector<R: rand::Rng + ?Sized>(&mut self, _rng: &mut R, array: &[f64]) -> Result<Expanded, CpuMathError> {
         let x0 = array.first().copied().unwrap_or(0.0);
         let cell = |off: f64| move |k: usize| x0 + off + k as f64 * 0.125;
-        Ok(Expanded { value: array.to_vec(), first: x0, wide: (0..EXP_ROWS * EXP_COLS).map(cell(10.0)).collect(),
+        Ok(Expanded { value: array.to_vec(), first: x0, decade: 10.0 * (3.0 * x0).round(), zero: 0.0, wide: (0..EXP_ROWS * EXP_COLS).map(cell(10.0)).collect(),
             tall: (0..EXP_ROWS * EXP_COLS).map(cell(20.0)).collect(), cube: (0..EXP_ROWS * EXP_COLS * EXP_ROWS).map(cell(30.0)).collect() })
     }
 
